@@ -222,7 +222,18 @@ impl BlockData {
         }
 
         match self.last_slice {
-            None if is_last => self.mark_last_slice(slice_index),
+            None if is_last => {
+                // slices already received beyond this one contradict its last-slice marker
+                if self
+                    .shreds
+                    .keys()
+                    .next_back()
+                    .is_some_and(|&max| max > slice_index)
+                {
+                    return Err(AddShredError::Equivocation);
+                }
+                self.mark_last_slice(slice_index);
+            }
             None => {}
             Some(l) => {
                 let consistent = (slice_index < l && !is_last) || (slice_index == l && is_last);
@@ -433,6 +444,12 @@ impl BlockData {
                 }
             };
             transactions.append(&mut txs);
+        }
+
+        // a block can only build on a block from an earlier slot
+        if parent.0 >= slot {
+            warn!("parent in slot {} is not in a slot before {slot}", parent.0);
+            return ReconstructBlockResult::Error;
         }
 
         let block = Block {
